@@ -4,11 +4,11 @@ and stores the evaluation lines in each meta.json."""
 import json, re, collections
 from pathlib import Path
 V = Path(__file__).resolve().parent.parent
-log = Path("/dev/shm/mut/summary.txt")
+log = V / "seeded" / "eval_log.txt"
 det = collections.OrderedDict()
 if log.exists():
     for l in log.read_text().splitlines():
-        m = re.match(r"MUTANT (\S+) check=(\S+) rc=(\d+) wall=(\d+)s viol=(\d+)", l)
+        m = re.match(r"MUTANT (\S+) check=(\S+)(?: verif=\S+)? rc=(\d+) wall=(\d+)s viol=(\d+)", l)
         if m:
             det.setdefault(m.group(1), []).append({"check": m.group(2), "rc": int(m.group(3)), "violations": int(m.group(5))})
 notes = json.loads((V / "seeded" / "notes.json").read_text()) if (V / "seeded" / "notes.json").exists() else {}
